@@ -95,6 +95,32 @@ def check_layout(ctx, facts):
     ctx.floor("C06.1", "allocator layout sites", n, 2)
 
 
+def check_cursor_limit(ctx, facts, rid="C06.1"):
+    """The allocator's own record (`next_block`) is handed out by `clone()` to every new topic: its `limit` stays one unit.
+    Every store to the `limit` field of that record, in any allocator function, is the constant DEFAULT_BLOCK_SIZE - a
+    multi-unit allocation builds its own Block value and leaves the record's limit alone."""
+    D = facts.const_val("config::DEFAULT_BLOCK_SIZE")
+    n = 0
+    for fn_ in ("allocator::BlockAllocator::new", "allocator::BlockAllocator::get_next_available_block", "allocator::BlockAllocator::alloc_block"):
+        try:
+            b = facts.body(fn_)
+        except Exception:
+            continue
+        n += 1
+        for site, st in b.assigns():
+            p_ = st["place"]
+            if any(e == "*" for e in p_["p"]) and p_["p"] and isinstance(p_["p"][-1], dict) and p_["p"][-1].get("n") == "limit" and str(p_["p"][-1].get("o", "")).endswith("block::Block"):
+                v = fmtfeat.const_eval(strip_refs(expr(b, st["rv"]["op"]))) if st["rv"]["k"] in ("use", "cast") else None
+                if v == D:
+                    ctx.ok(rid, fn_, "the allocator record's limit is set to DEFAULT_BLOCK_SIZE", b.relfile, site.line)
+                else:
+                    ctx.violate(rid, fn_, "allocator-record-limit-not-one-unit", b.relfile, site.line,
+                                "%s stores %s into the limit of the allocator's own block record: the next topic created is handed a copy of that record with an oversized limit "
+                                "on a one-unit reservation, its writer runs on into the following unit and overwrites another topic's block"
+                                % (fn_.split("::")[-1], show(strip_refs(expr(b, st["rv"]["op"])))[:60] if st["rv"]["k"] in ("use", "cast") else st["rv"]["k"]))
+    ctx.floor(rid, "allocator functions inspected for stores to the record's limit", n, 2)
+
+
 def unit_iter_loop(facts, b):
     """The per-file unit loop written over an iterator: `for off in (0..N).map(|u| u * DEFAULT_BLOCK_SIZE)` (or
     `.step_by(DEFAULT_BLOCK_SIZE)` over `0..MAX_FILE_SIZE`).  Returns (next-call site, loop blocks, Some edge, None edge) or None.
@@ -407,6 +433,7 @@ def run(ctx):
         ctx.rule(k, v)
     facts = common.mir(ctx, "walrus_rust")
     check_layout(ctx, facts)
+    check_cursor_limit(ctx, facts)
     check_scan(ctx, facts)
     check_entry_scan_bound(ctx, facts)
     check_scan_stride(ctx, facts)
